@@ -5,6 +5,8 @@ Every theorem is about the model `Filter.runPipeline` / `Filter.updateFilter`, f
 every regex oracle and every command list; `SameSets` compares the four filter sets as sets.
 -/
 import Paroxy.Proofs.FilterOrder
+import Paroxy.Proofs.Costs
+import Paroxy.Props.C05
 namespace Paroxy.Props.C06
 open Paroxy Paroxy.Filter
 
@@ -171,6 +173,101 @@ theorem negTriple_iff_not_featuring (pm X : Codes) (pred : Span → Span → Boo
   · intro hno
     exact ⟨tm, 0, s, hm, ho, fun t2 j s2 hX ho2 _ => absurd ⟨t2, hX, j, s2, ho2⟩ hno⟩
 
+namespace Example
+
+def M : Codes := [109]   -- "m" stands for meta/program
+def X : Codes := [120]
+def P : Codes := [112]
+
+def exCtx : Ctx := {
+  orc := { matchTaxon := fun p t => p == t, matchProg := fun p t => p == t }
+  programs := [(P, [(M, [((1, 3) : Span)]), (X, [(2, 2)])])]
+  taxa := [(M, [P]), (X, [P])]
+  exportations := [(P, [])] }
+
+def contains (s s' : Span) : Bool := decide (s.1 ≤ s'.1 ∧ s'.2 ≤ s.2)
+
+theorem occ_cases (t : Codes) (j : Nat) (s' : Span) (ho : Occ exCtx P t j s') :
+    (t = M ∧ j = 0 ∧ s' = (1, 3)) ∨ (t = X ∧ j = 0 ∧ s' = (2, 2)) := by
+  obtain ⟨rec, spans, h1, h2, h3⟩ := ho
+  have hr : rec = [(M, [((1, 3) : Span)]), (X, [(2, 2)])] := by
+    have : dictGet? exCtx.programs P = some [(M, [((1, 3) : Span)]), (X, [(2, 2)])] := rfl
+    rw [this] at h1; exact (Option.some.inj h1).symm
+  subst hr
+  by_cases hM : M = t
+  · subst hM
+    have : spans = [((1, 3) : Span)] := by
+      have : dictGet? [(M, [((1, 3) : Span)]), (X, [(2, 2)])] M = some [(1, 3)] := rfl
+      rw [this] at h2; exact (Option.some.inj h2).symm
+    subst this
+    left
+    cases j with
+    | zero => simp at h3; exact ⟨rfl, rfl, h3.symm⟩
+    | succ j => simp at h3
+  · by_cases hX : X = t
+    · subst hX
+      have : spans = [((2, 2) : Span)] := by
+        have : dictGet? [(M, [((1, 3) : Span)]), (X, [(2, 2)])] X = some [(2, 2)] := rfl
+        rw [this] at h2; exact (Option.some.inj h2).symm
+      subst this
+      right
+      cases j with
+      | zero => simp at h3; exact ⟨rfl, rfl, h3.symm⟩
+      | succ j => simp at h3
+    · simp [dictGet?, hM, hX] at h2
+
+/-- Non-vacuity of `MetaHyp` (hence of the two equivalences below): one program `p` with `m` (standing
+for `meta/program`) on lines 1-3 and `x` on line 2, literal oracle, the relation `contains`. -/
+theorem metaHyp_example : MetaHyp exCtx M X contains (initState exCtx.programs) where
+  noImports := by
+    intro p q h
+    unfold Imports at h
+    by_cases hq : P = q
+    · subst hq; simp [exCtx, dictGet?, P] at h
+    · simp [exCtx, dictGet?, hq] at h
+  metaOcc := by
+    intro p hp
+    have hp' : p = P := by simpa [IsProgram, exCtx] using hp
+    subst hp'
+    refine ⟨M, (1, 3), by decide, ⟨_, _, rfl, rfl, rfl⟩, ?_, ?_⟩
+    · intro t j s' hm ho
+      have ht : M = t := beq_iff_eq.mp hm
+      subst ht
+      rcases occ_cases _ j s' ho with ⟨_, hj, _⟩ | ⟨hx, _, _⟩
+      · exact ⟨rfl, hj⟩
+      · exact absurd hx (by decide)
+    · intro t j s' ho
+      rcases occ_cases t j s' ho with ⟨_, _, hs⟩ | ⟨_, _, hs⟩ <;> subst hs <;> decide
+  disjoint := by
+    intro t h
+    have ht : X = t := beq_iff_eq.mp h
+    subst ht
+    decide
+  selPrograms := by
+    intro p hp
+    exact hp
+
+end Example
+
+open Paroxy.Spec Paroxy.Spec.NP Paroxy.NP in
+/-- The relation of the documented equivalences: `not contains` denotes, NEGATED, the key `x≤y≤y≤x`
+(C16 for the spelling, C08 for the meaning), i.e. `pred` of `MetaHyp` is "the span of `meta/program`
+contains the other span". -/
+theorem C06_not_contains :
+    ∃ pred, C05.genRelations.predicate (codesOf "not contains") = .ok (pred, true) ∧
+      ∀ s s' : Span, pred s s' = true ↔ (⟨.x, .y, .y, .x, .le, .le, .le⟩ : Key).Holds s s' := by
+  have h : (codesOf "contains", (⟨.x, .y, .y, .x, .le, .le, .le⟩ : Key)) ∈ aliases := by decide +kernel
+  have hd : ((codesOf "not ", codesOf "", true) : Str × Str × Bool) ∈ decorations := by decide +kernel
+  have := C05.C05_named_relation (codesOf "contains") _ h _ hd []
+  have e : codesOf "not " ++ renderName (codesOf "contains") [] ++ codesOf "" = codesOf "not contains" := by
+    decide +kernel
+  simp only [e] at this
+  exact this
+
+open Paroxy.Spec in
+example : (⟨.x, .y, .y, .x, .le, .le, .le⟩ : Key).Holds (1, 5) (2, 3) ∧
+    ¬ (⟨.x, .y, .y, .x, .le, .le, .le⟩ : Key).Holds (2, 3) (1, 5) := by decide
+
 /-- **`include [X]` = `exclude [(meta/program, not contains, X)]`**, under `MetaHyp`. -/
 theorem C06_include_iff_exclude_not (wf : c.WF) (pm X raw : Codes) (pred : Span → Span → Bool)
     (st s1 s2 : State) (hX : endsWithPy X = false) (hp : r.predicate raw = .ok (pred, true))
@@ -218,5 +315,41 @@ theorem C06_exclude_iff_include_not (wf : c.WF) (pm X raw : Codes) (pred : Span 
       · exact (negTriple_iff_not_featuring c pm X pred st H q (H.selPrograms q hs)).mp hq hf
       · exact H.noImports _ _ hi
     · exact H.noImports _ _ hi
+
+/-- **Order-independent, as lists.** When the initial selection has no duplicate (it is the key list of
+the database), any permutation of the commands yields the very same selection *list* — not only the
+same set — so that anything computed from it in order (the ranking, the report) is the same. -/
+theorem C06_selection_order_independent (st s s' : State) (cmds cmds' : List Command)
+    (hperm : cmds'.Perm cmds) (hn : st.selected.Nodup)
+    (h : runPipeline c r st cmds = .ok s) (h' : runPipeline c r st cmds' = .ok s') :
+    s.selected = s'.selected :=
+  sublist_ext hn (runPipeline_sublist c r cmds st s h) (runPipeline_sublist c r cmds' st s' h')
+    ((C06_order_independent c r st cmds cmds' hperm).2 s s' h h').1
+
+/-- **Costs are order-independent.** After any permutation of the commands, every taxon and every
+program record has the same learning cost, and the assessment of the final selection (the ranked
+`(cost, path)` list of C07) is the same list. -/
+theorem C06_costs_order_independent (strat : Costs.Strategy) (progs : List (Codes × TaxaSpans))
+    (st s s' : State) (cmds cmds' : List Command)
+    (hperm : cmds'.Perm cmds) (hn : st.selected.Nodup)
+    (h : runPipeline c r st cmds = .ok s) (h' : runPipeline c r st cmds' = .ok s') :
+    (∀ t, Costs.taxonCost strat s.knowledge t = Costs.taxonCost strat s'.knowledge t) ∧
+    (∀ rec, Costs.programCost strat s.knowledge rec = Costs.programCost strat s'.knowledge rec) ∧
+    Costs.assess strat progs s.knowledge s.selected = Costs.assess strat progs s'.knowledge s'.selected := by
+  have hk := ((C06_order_independent c r st cmds cmds' hperm).2 s s' h h').2.1
+  have ht : ∀ t, Costs.taxonCost strat s.knowledge t = Costs.taxonCost strat s'.knowledge t :=
+    fun t => Costs.taxonCost_congr strat _ _ hk t
+  have hf : (fun (acc : Rat) (ts : Codes × List Span) => acc + Costs.taxonCost strat s.knowledge ts.1) =
+      (fun acc ts => acc + Costs.taxonCost strat s'.knowledge ts.1) := by
+    funext acc ts; rw [ht]
+  have hp : ∀ rec, Costs.programCost strat s.knowledge rec = Costs.programCost strat s'.knowledge rec := by
+    intro rec; unfold Costs.programCost; rw [hf]
+  refine ⟨ht, hp, ?_⟩
+  rw [C06_selection_order_independent c r st s s' cmds cmds' hperm hn h h']
+  unfold Costs.assess
+  have : (fun p => (dictGet? progs p).map fun rec => (Costs.programCost strat s.knowledge rec, p)) =
+      (fun p => (dictGet? progs p).map fun rec => (Costs.programCost strat s'.knowledge rec, p)) := by
+    funext p; simp only [hp]
+  rw [this]
 
 end Paroxy.Props.C06
